@@ -1082,7 +1082,7 @@ def _check_mean_field_system_list(system_list):
         assert isinstance(obj, TimeDependentSystemWithField), "Each "\
                 "element of system_list must be a "\
                 "TimeDependentSystemWithField object."
-    return system_list
+    return list(system_list)
 
 def _check_parameterized_gammas_lindblad_operators(
         gammas,
@@ -1098,7 +1098,7 @@ def _check_parameterized_gammas_lindblad_operators(
         gammalist.append(try_gamma)
         loplist.append(try_lop)
     _check_gammas_lindblad_operators(gammalist,loplist)
-    return gammas, lindblad_operators
+    return list(gammas), list(lindblad_operators)
 
 def _check_mean_field_system_eom(dim_list, field_eom):
     """Input check a field equation of motion for a mean-field-system"""
